@@ -363,6 +363,9 @@ class Item:
         self.cvc5_checked = 0
         self.pins = (params or {}).get("__pins__")
         self._t0 = time.time()
+        self.real_inputs = []      # z3 Real variables handed to the code as floats (made dyadic in samples)
+        self.robust_eps = None     # Fraction: margin used when choosing validation samples / counterexamples
+        self.boundary_paths = 0
 
     # ---- setup
     def declare(self, *things):
@@ -445,10 +448,36 @@ class Item:
                 out[k] = str(frac_of_z3(e))
         return out
 
+    def robust(self, path):
+        """extra constraints that keep a sample away from every decision boundary of the real-arithmetic model
+        (comparisons, floors) and make float inputs exactly representable, so that binary64 rounding cannot flip
+        a decision when the sample is replayed on the real code"""
+        if self.robust_eps is None:
+            return None
+        e = z3.RealVal("%d/%d" % (self.robust_eps.numerator, self.robust_eps.denominator))
+        cs = []
+        for d in (path.margins if path is not None else ()):
+            cs.append(z3.Or(d >= e, d <= -e))
+        for x in (path.floors if path is not None else ()):
+            fr = x - z3.ToReal(z3.ToInt(x))
+            cs.append(z3.And(fr >= e, fr <= 1 - e))
+        for k, v in enumerate(self.real_inputs):
+            cs.append(v == z3.ToReal(z3.Int("__dy%d" % k)) / (1 << 26))
+        return cs
+
     def validate(self, path, call_real, concretize_inputs, cmp=None):
         """path validation: one model of the path condition is pushed through the real, unpatched code and must
         produce the outcome the encoding predicts."""
-        r, m, _ = self._solve(path.pc + [c for c in self.assumptions], timeout_ms=60000)
+        rb = self.robust(path)
+        if rb is not None:
+            r, m, _ = self._solve(path.pc + list(self.assumptions) + rb, timeout_ms=60000)
+            if r != z3.sat:
+                # feasible only on a decision boundary (measure zero) or too hard: the obligations still cover the
+                # path, but no rounding-robust sample exists to compare with the real code
+                self.boundary_paths += 1
+                return None
+        else:
+            r, m, _ = self._solve(path.pc + [c for c in self.assumptions], timeout_ms=60000)
         if r != z3.sat:
             if r == z3.unsat:
                 raise HarnessError("%s: explored path has an unsatisfiable condition" % self.name)
@@ -488,7 +517,7 @@ class Item:
             out.append((f, t))
         return out
 
-    def prove(self, label, pc, claim, replay=None, timeout_ms=None):
+    def prove(self, label, pc, claim, replay=None, timeout_ms=None, path=None):
         """Obligation: assumptions AND pc IMPLIES claim. claim: z3 Bool or Python bool.
         replay(model) -> (reproduced: bool, inputs: dict, detail: str) is run on a counterexample."""
         self.obligations += 1
@@ -506,16 +535,32 @@ class Item:
             raise HarnessError("%s/%s: solver returned unknown (%.0fs)" % (self.name, label, dt))
         if r == z3.sat:
             ok = False
-            self._counterexample(label, m, replay, None)
+            self._counterexample(label, self._robust_model(base + outside, m, path), replay, None)
         for f, t in regions:
             r2, m2, dt2 = self._solve(base + [t], timeout_ms)
             if r2 == z3.unknown:
                 raise HarnessError("%s/%s: solver returned unknown inside known-finding region" % (self.name, label))
             if r2 == z3.sat:
-                self._counterexample(label, m2, replay, f)
+                self._counterexample(label, self._robust_model(base + [t], m2, path), replay, f)
         if ok:
             self.discharged += 1
         return ok
+
+    def _robust_model(self, conds, model, path):
+        """prefer a counterexample that survives binary64 rounding (see robust()); fall back to the raw model"""
+        rb = self.robust(path)
+        if rb is None:
+            return model
+        for scale in (1, 1000):
+            if scale != 1:
+                eps = self.robust_eps
+                self.robust_eps = eps / scale
+                rb = self.robust(path)
+                self.robust_eps = eps
+            r, m, _ = self._solve(list(conds) + rb, timeout_ms=60000)
+            if r == z3.sat:
+                return m
+        return model
 
     def _counterexample(self, label, model, replay, finding):
         if replay is None:
@@ -545,7 +590,7 @@ class Item:
             "violations": [v.asdict() for v in self.violations], "known_hits": self.known_hits,
             "solver_s": round(self.solver_s, 3), "queries": self.queries, "functions": sorted(self.functions),
             "notes": self.notes, "wall_s": round(time.time() - self._t0, 3),
-            "decisions": 0, "cvc5_checked": self.cvc5_checked,
+            "decisions": 0, "cvc5_checked": self.cvc5_checked, "boundary_paths": self.boundary_paths,
         }
 
 
@@ -593,7 +638,7 @@ def decide(item, label, fn_sym, call_real, conc_inputs, post, maxpaths=20000, cm
             if z3.is_expr(c2):
                 c2 = z3.is_true(ev_term(model, c2))
             return (not c2), conc, "real outcome %r violates the property" % (jsonable(real[:2]),)
-        item.prove(label, p.pc, claim, replay)
+        item.prove(label, p.pc, claim, replay, path=p)
     return paths
 
 
